@@ -2,6 +2,7 @@ mod ser;
 mod run;
 mod corpus;
 mod extract;
+mod analyze;
 
 fn main() {
     let args: Vec<String> = std::env::args().collect();
@@ -9,7 +10,7 @@ fn main() {
     let flag = |name: &str| args.iter().any(|a| a == name);
     let opt = |name: &str| args.iter().position(|a| a == name).and_then(|i| args.get(i + 1)).cloned();
     match cmd {
-        "run" => run::main(flag("--no-in"), opt("--repeat").and_then(|x| x.parse().ok()).unwrap_or(1)),
+        "run" => run::main(flag("--no-in"), opt("--repeat").and_then(|x| x.parse().ok()).unwrap_or(1), flag("--analyze")),
         "extract" => extract::main(&opt("--repo").unwrap_or("/repo".into()), opt("--out")),
         "corpus" => corpus::main(&opt("--repo").unwrap_or("/repo".into())),
         _ => {
